@@ -1,8 +1,8 @@
 (* Correspondence checks for C10: model (Model/Restraints.v) vs observations of the implementation.
    Positions are atom tags (nat): tag k = "position of atom k of the start molecule at call time",
-   1000 + k for the end molecule; the harness recovers the tags by exact comparison of the arrays
+   100 + k for the end molecule (999 = no unique match); the harness recovers the tags by exact comparison of the arrays
    received by the wrapped optimiser with the molecules' positions at that moment. *)
-From Coq Require Export ZArith List String Bool Arith.
+From Coq Require Export String ZArith Bool Arith List.   (* List last: `length` must stay List.length for the case files *)
 From GM Require Export Base.Res Model.Restraints.
 Export ListNotations.
 
